@@ -908,6 +908,82 @@ Definition validate_delegation (E : env) (cd : bool) (resp : msg) (q : name)
       end
   end.
 
+(* ------------------------------------------------------------ the descent *)
+(* Resolver.resolve / processAuthoritySection / processDelegation with QNAME minimisation off: one upstream response
+   per step.  What travels down is (zone asked, DS set held for it) — resolveState.servers.Zone / parentDS — and the
+   delegation cache files, per cut crossed, the DS set validateDelegation returned (authority.Delegation.DSSet). *)
+(* extractDelegationInfo: the first NS record anchors the referral (owner, class); the others must agree *)
+Definition first_ns (ns : list rr) : option rr := find (fun r => r_type r =? T_NS) ns.
+Definition has_soa (ns : list rr) : bool := existsb (fun r => r_type r =? T_SOA) ns.
+Definition ns_coherent (ns : list rr) (f : rr) : bool :=
+  forallb (fun r => negb (r_type r =? T_NS) || (name_eqb (r_owner r) (r_owner f) && (r_class r =? r_class f))) ns.
+(* progressingReferral: strictly below the zone asked and on the path to qname *)
+Definition progressing (referral zone qname : name) : bool :=
+  in_zone referral zone && negb (name_eqb referral zone) && in_zone qname referral.
+(* validReferral (class IN questions) *)
+Definition valid_referral (ns : list rr) (f : rr) (zone qname : name) : bool :=
+  ns_coherent ns f && (r_class f =? 1) && progressing (r_owner f) zone qname.
+(* filterAuthorityRecords *)
+Definition filter_authority (ns : list rr) : list rr :=
+  filter (fun r => (r_type r =? T_SOA) || (r_type r =? T_NSEC) || (r_type r =? T_NSEC3) || (r_type r =? T_RRSIG)) ns.
+Definition with_ns (m : msg) (ns : list rr) : msg :=
+  mk_msg (m_id m) (m_qname m) (m_qtype m) (m_rcode m) (m_ans m) ns (m_ad m).
+(* resolve: an answer under SERVFAIL / NXDOMAIN is taken as NOERROR *)
+Definition fix_rcode (m : msg) : msg :=
+  if (m_rcode m =? RC_SERVFAIL) || (m_rcode m =? RC_NXDOMAIN)
+  then mk_msg (m_id m) (m_qname m) (m_qtype m) 0 (m_ans m) (m_ns m) (m_ad m) else m.
+(* the delegation cache of the request's CD partition: cut |-> DS set filed with it *)
+Definition dcache := list (name * list rr).
+Fixpoint dc_find (dc : dcache) (z : name) : option (list rr) :=
+  match dc with
+  | [] => None
+  | (z', ds) :: r => if name_eqb z z' then Some ds else dc_find r z
+  end.
+(* searchCache: the deepest cached cut at or above qname, else the root with no DS *)
+Fixpoint search_cache (dc : dcache) (q : name) : name * list rr :=
+  match dc_find dc q with
+  | Some ds => (q, ds)
+  | None => match q with [] => ([], []) | _ :: p => search_cache dc p end
+  end.
+Definition EL_TRANSCRIPT : N := 96.   (* the transcript ended before the resolution did (never observed) *)
+Definition EL_PARENT : N := 97.       (* errParentDetection: a referral that does not progress *)
+Record dresult := mk_dresult { dr_out : outcome; dr_cache : dcache; dr_left : nat }.
+Fixpoint descend (E : env) (q : name) (t : N) (cd : bool) (zone : name) (pds : list rr) (dc : dcache)
+         (resps : list msg) : dresult :=
+  match resps with
+  | [] => mk_dresult (Fail (ELookup EL_TRANSCRIPT)) dc 0
+  | resp :: rest =>
+      let fin := fun o => mk_dresult o dc (length rest) in
+      match m_ans resp with
+      | _ :: _ => fin (validate_answer E q t cd (fix_rcode resp) pds (Some zone))
+      | [] =>
+          match m_ns resp with
+          | [] => fin (Accept (mk_msg (m_id resp) q t (m_rcode resp) [] [] false))
+          | ns =>
+              match first_ns ns with
+              | None => fin (validate_negative E q t cd resp pds (Some zone))
+              | Some f =>
+                  if has_soa ns then fin (validate_negative E q t cd (with_ns resp (filter_authority ns)) pds (Some zone))
+                  else if negb (valid_referral ns f zone q) then fin (Fail (ELookup EL_PARENT))
+                  else match validate_delegation E cd resp (r_owner f) pds (Some zone) with
+                       | Er e => fin (Fail e)
+                       | Ok ds =>
+                           match dc_find dc (r_owner f) with
+                           | Some cached => descend E q t cd (r_owner f) cached dc rest   (* resolveWithCachedNameservers *)
+                           | None =>
+                               let dc' := if e_dnssec E && match e_anchors E with [] => true | _ => false end
+                                          then dc else (r_owner f, ds) :: dc in
+                               descend E q t cd (r_owner f) ds dc' rest
+                           end
+                       end
+              end
+          end
+      end
+  end.
+(* Resolve(root = true): start at the deepest cached cut *)
+Definition resolve_from_cache (E : env) (q : name) (t : N) (cd : bool) (dc : dcache) (resps : list msg) : dresult :=
+  let '(zone, pds) := search_cache dc q in descend E q t cd zone pds dc resps.
+
 (* ------------------------------------------------- AD toward the client *)
 Record creq := mk_creq { q_cd : bool; q_do : bool; q_ad : bool }.
 (* edns.ResponseWriter: noad, then WriteMsg / WriteWire *)
